@@ -2,7 +2,7 @@
 import ast
 
 from vstat.loader import AnalysisError
-from vstat.terms import IT, builder, show, SELF, NONE, G, alts, walk, mentions, phi, strip_none, FULL
+from vstat.terms import subst, IT, builder, show, SELF, NONE, G, alts, walk, mentions, phi, strip_none, FULL
 from vstat.guards import path_conditions
 from vstat.cfg import cfg_of
 from vstat.sigs import bind
@@ -67,7 +67,7 @@ def pdf_chain(prog, rep):
     okr = False
     if t is not None and t[0] == "call" and t[1] in (G("numpy.prod"), G("numpy.product")) and len(t[2]) == 1 and len(bases) == 1:
         ax = dict(t[3]).get("axis")
-        okr = t[2][0] in bases and ax in (("const", -1), ("const", 1))
+        okr = t[2][0] in bases and ax in (("const", -1), ("const", 1)) and set(dict(t[3])) == {"axis"}
     rep.check(okr, "C06.chain", f"{fn.qualname}:product", fn.where(ret[-1]) if ret else fn.where(), "return prod(fs, axis=-1) of the whole factor matrix",
               f"the joint density must be the product over the last axis of the complete factor matrix; found {show(t)[:120] if t else None}")
 
@@ -96,22 +96,46 @@ def finite(prog, rep):
 def _integral_func(prog, rep, outer_q, tag):
     """The nested integral_func: returns the argsort operand (arg order term) after checking the wrapper shape."""
     outer = prog.func(outer_q)
-    cands = []
-    stack = list(outer.children.values())
-    while stack:
-        c = stack.pop()
-        stack.extend(c.children.values())
-        if isinstance(c.node, ast.Lambda) or c.node.args.vararg is not None:
-            cands.append(c)
-    cands = [c for c in cands if any(isinstance(n, ast.Attribute) and n.attr == "pdf" for n in ast.walk(c.node))]
-    if len(cands) != 1:
-        raise AnalysisError(f"{outer_q}: expected exactly one nested *args wrapper around self.pdf, found {[c.qualname for c in cands]}")
-    fn = cands[0]
+    # the integrand is whatever is handed to nquad: a nested closure, or the closure returned by a factory
+    # (nested or module-level) whose parameters are bound at the call - those are substituted by the actual arguments
+    bo = builder(prog, outer, inline=False)
+    integrands = set()
+    for st in cfg_of(outer).all_stmts():
+        for n in ast.walk(st) if isinstance(st, (ast.Assign, ast.Expr, ast.Return, ast.AugAssign)) else []:
+            if isinstance(n, ast.Call):
+                tc = bo.term(n, st)
+                if tc[0] == "call" and tc[1] == G("scipy.integrate.nquad"):
+                    bd = bind(tc)
+                    if bd and "func" in bd:
+                        integrands |= set(alts(bd["func"]))
+    if len(integrands) != 1:
+        raise AnalysisError(f"{outer_q}: expected exactly one integrand handed to nquad, found {[show(i)[:60] for i in integrands]}")
+    it = next(iter(integrands))
+    actual = {}
+    if it[0] == "call" and it[1][0] == "func" and it[1][1] in prog.functions:
+        factory = prog.functions[it[1][1]]
+        bf_ = builder(prog, factory, inline=False)
+        frets = [s for s in cfg_of(factory).all_stmts() if isinstance(s, ast.Return)]
+        inner = bf_.term(frets[0].value, frets[0]) if len(frets) == 1 else None
+        bound = bind(it, factory.positional_params)
+        if inner is None or inner[0] != "func" or bound is None:
+            raise AnalysisError(f"{outer_q}: integrand factory {factory.qualname} not understood")
+        actual = {("param", k): v for k, v in bound.items()}
+        if factory.parent is not None and set(bound) & set(outer.params):
+            raise AnalysisError(f"{outer_q}: factory parameters shadow the enclosing function's")
+        it = inner
+    if it[0] != "func" or it[1] not in prog.functions:
+        raise AnalysisError(f"{outer_q}: integrand {show(it)[:80]} is not a function of this package")
+    fn = prog.functions[it[1]]
     q = fn.qualname
     rep.analysed(fn)
     b = builder(prog, fn, inline=False)
     ret = [s for s in cfg_of(fn).all_stmts() if isinstance(s, ast.Return)]
+    if len(ret) != 1 or not (isinstance(fn.node, ast.Lambda) or fn.node.args.vararg is not None):
+        raise AnalysisError(f"{q}: the integrand must be a *args wrapper with one return")
     t = b.term(ret[0].value, ret[0])
+    if actual:
+        t = subst(t, actual)
     nd = ("attr", SELF, "n_dim")
     ao = None
     ok = False
@@ -130,6 +154,35 @@ def _integral_func(prog, rep, outer_q, tag):
                            f"(args[arg_order] coincides only for 2-D); found index {show(idx)[:100]}")
     rep.check(ok, "C06.argorder", f"{q}:inverse-permutation", fn.where(ret[0]), "x = args[argsort(arg_order)]", why)
     return ao
+
+
+def _nquad_calls(fn, b):
+    """[(statement, call term)] of every scipy.integrate.nquad call in fn (wherever it sits in the statement)."""
+    out = []
+    for st in cfg_of(fn).all_stmts():
+        if isinstance(st, (ast.Assign, ast.AugAssign, ast.Expr, ast.Return)):
+            for n in ast.walk(st):
+                if isinstance(n, ast.Call):
+                    t = b.term(n, st)
+                    if t[0] == "call" and t[1] == G("scipy.integrate.nquad") and not any(t == o[1] for o in out):
+                        out.append((st, t))
+    return out
+
+
+def _result_rows(fn, b, call):
+    """Indices at which the integral value (element 0 of nquad's result) is stored: 'res, _ = nquad(..); p[i] = res',
+    'p[i], _ = nquad(..)' or 'p[i] = nquad(..)[0]'."""
+    rows = []
+    val = IT(call, 0)
+    for s2 in cfg_of(fn).all_stmts():
+        if not isinstance(s2, ast.Assign):
+            continue
+        tg = s2.targets[0]
+        if isinstance(tg, ast.Subscript) and b.term(s2.value, s2) == val:
+            rows.append(b.term(tg.slice, s2))
+        elif isinstance(tg, (ast.Tuple, ast.List)) and tg.elts and isinstance(tg.elts[0], ast.Subscript) and b.term(s2.value, s2) == call:
+            rows.append(b.term(tg.elts[0].slice, s2))
+    return rows
 
 
 def _has_del(fn, name, idx_term, b):
@@ -159,24 +212,18 @@ def argorder(prog, rep):
                   f"joint cdf integrates in model order; arg_order must be list(range(n_dim)), found {show(ao)[:100] if ao else None}")
         okc = False
         why = "no nquad call found"
-        for st in cfg_of(fn).all_stmts():
-            if isinstance(st, ast.Assign) and isinstance(st.value, ast.Call):
-                t = b.term(st.value, st)
-                if t[0] == "call" and t[1] == G("scipy.integrate.nquad"):
+        for st, t in _nquad_calls(fn, b):
                     bd = bind(t)
                     r = bd.get("ranges") if bd else None
-                    tg = st.targets[0]
-                    tgt = b.term(tg.elts[0], st) if isinstance(tg, ast.Tuple) else None
                     why = f"ranges must be [(0, x[i, j]) for j in range(n_dim)] with the result stored at p[i]; found {show(r)[:160] if r else None}"
                     if r and r[0] == "comp" and r[4] == ("call", G("range"), (nd,), ()) and r[2][0] == "tuple" and len(r[2][1]) == 2:
                         j = ("idx", r[3], "range", (nd,))
                         lo, hi = r[2][1]
                         lo_ok = algebra.same(lo, ("const", 0)) or (lo[0] == "sub" and lo[2] == j and algebra.same(lo[1], ("bin", "*", ("list", (("const", 0),)), nd)))
-                        if hi[0] == "sub" and hi[1][0] == "col" and hi[1][2] == j and isinstance(tg, ast.Tuple):
+                        if hi[0] == "sub" and hi[1][0] == "col" and hi[1][2] == j:
                             row = hi[2]
-                            tt = tg.elts[0]
-                            trow = b.term(tt.slice, st) if isinstance(tt, ast.Subscript) else None
-                            okc = lo_ok and trow == row and row[0] == "idx"
+                            trows = _result_rows(fn, b, t)
+                            okc = lo_ok and trows == [row] and row[0] == "idx"
         rep.check(okc, "C06.argorder", f"{q}:limits", fn.where(), "range j = (0, x[i, j]); result -> p[i]", why)
     # --- marginal pdf / cdf of the hierarchical model
     for name in ("marginal_pdf", "marginal_cdf"):
@@ -194,10 +241,7 @@ def argorder(prog, rep):
                   "the list of integrated dimensions must have dim removed (del integral_order[dim]) so that arg_order is a permutation of range(n_dim)")
         okc = False
         why = "no nquad call found"
-        for st in cfg_of(fn).all_stmts():
-            if isinstance(st, ast.Assign) and isinstance(st.value, ast.Call):
-                t = b.term(st.value, st)
-                if t[0] == "call" and t[1] == G("scipy.integrate.nquad"):
+        for st, t in _nquad_calls(fn, b):
                     bd = bind(t)
                     inf_lim = ("bin", "*", ("list", (("tuple", (("const", 0), G("numpy.inf"))),)), ("bin", "-", nd, ("const", 1)))
                     if name == "marginal_pdf":
@@ -216,9 +260,7 @@ def argorder(prog, rep):
                         why = f"marginal_cdf must integrate the others over (0, inf) and the LAST range (the dim'th variable) over (0, x_i); found {show(r)[:200] if r else None}"
                     if okc:
                         # result stored at the index of its own point
-                        res_stores = [s2 for s2 in cfg_of(fn).all_stmts() if isinstance(s2, ast.Assign) and isinstance(s2.targets[0], ast.Subscript)
-                                      and b.term(s2.value, s2) == IT(t, 0)]
-                        okc = len(res_stores) == 1 and b.term(res_stores[0].targets[0].slice, res_stores[0]) == xi
+                        okc = _result_rows(fn, b, t) == [xi]
                         why = "the integral of point i must be stored at index i of the result"
         rep.check(okc, "C06.argorder", f"{q}:limits", fn.where(), "limits / args in the position of dim; result at its own index", why)
 
